@@ -835,30 +835,65 @@ example : -- non-vacuous run of the alias model: removal of the last index, rest
       .target [[105]], .gracefulRestarted, .target [[105]], .target [], .names [[98]], .names []] := by decide
 end Alias
 
-/-! ## lookup files (pkg/lookups) — one name space (the code has NO tenant dimension, so there is no
-tenant_frame statement), no in-memory state; statements (1) and (2) hold at full strength -/
+/-! ## lookup files (pkg/lookups) — one directory per org (WITH patch c13-1, PENDING: org 0 keeps `<data>/lookups/`, every
+other org has the sub-directory named after it; before the patch the handlers took no org id and all orgs shared one
+directory), no in-memory state; statements (1), (2) and (3) hold at full strength -/
 section Lookup
 open SigModel.KV.Lookup
 
 /-- C20.K1 (lookup files): for EVERY sequence of upload (with / without overwrite, plain or gzip) / get /
-delete / list / restart, every answer is the documented one (upload stores under the normalised name —
+delete / list / restart by any orgs, every answer is the documented one (upload stores under the normalised name —
 ".csv" / ".csv.gz" appended unless already there, case-insensitively —, without overwrite it is a
-`create` = 409 when the name exists, with overwrite an upsert; get / delete = not-found exactly when
-absent; list = exactly the stored names) and `abs` commutes with every step. -/
+`create` = 409 when the org has a file of that name, with overwrite an upsert; get / delete = not-found exactly when
+the ORG has no such file; list = exactly the names the org stored) and `abs` commutes with every step. -/
 theorem kv_refines_spec_lookup (ops : List Op) : Refines Spec.empty init ops := by
-  have h := Lemmas.C20K.Lookup.refines_of_nodup ops init (by simp [init, AL.keys])
+  have h := Lemmas.C20K.Lookup.refines_of_inv ops init Lemmas.C20K.Lookup.inv_init
   rwa [Lemmas.C20K.Lookup.abs_init] at h
 
 /-- C20.K2 (lookup files): a restart is the identity on the whole state (nothing is held in memory). -/
 theorem reload_persist_id_lookup (st : St) : (step st .restart).1 = st := rfl
 
-example : -- non-vacuous: suffix rule, conflict without overwrite, case variants are different files
-    (run init [.upload [97] "01" false false, .upload [97, 46, 99, 115, 118] "02" false false, .upload [97] "03" true false,
-      .get [97], .get [97, 46, 99, 115, 118], .upload [65, 46, 67, 83, 86] "04" false true, .list, .delete [97, 46, 99, 115, 118],
-      .restart, .list, .upload [46, 46] "05" true false]).2 =
+/-- C20.K3 / C13 (lookup files): an operation of org `t` changes no file of any other org — in ANY state (every request
+works inside the directory of its own org). -/
+theorem tenant_frame_lookup (st : St) (op : Op) (t : Nat) (ht : op.tenant = some t) (t' : Nat) (hne : t' ≠ t) :
+    ∀ k, abs (step st op).1 t' k = abs st t' k := by
+  intro k
+  show ((step st op).1.files t').get k = (st.files t').get k
+  rw [Lemmas.C20K.Lookup.frame st op t ht t' hne]
+
+/-- … and what an org reads (download, listing) is determined by its own files alone: two states that agree on the
+files of org `t` give the same answers to every read of org `t`. -/
+theorem lookup_reads_own_files (st st' : St) (t : Nat) (h : st.files t = st'.files t) (name : Key) :
+    (step st (.get t name)).2 = (step st' (.get t name)).2 ∧ (step st (.list t)).2 = (step st' (.list t)).2 := by
+  refine ⟨?_, by simp only [step, h]⟩
+  simp only [step, h]
+  split
+  · rfl
+  · split <;> rfl
+
+/-- OLD behaviour (before patch c13-1) REFUTED: the handlers knew no org — a file uploaded for org 1 was returned to
+org 7, listed for it, and org 7 could delete it. -/
+theorem tenant_frame_lookup_old_counterexample :
+    ¬ (∀ (st : St) (op : Op) (t : Nat), op.tenant = some t → ∀ t' : Nat, t' ≠ t →
+        ∀ k, abs (stepOld st op).1 t' k = abs st t' k) := by
+  intro h
+  have := h { files := fun t => if t = 0 then [([97, 46, 99, 115, 118], "01")] else [] } (.delete 7 [97, 46, 99, 115, 118]) 7 rfl 0 (by decide)
+    [97, 46, 99, 115, 118]
+  revert this; decide
+
+example : -- the old handlers: an upload by org 1 is what org 7 downloads
+    (runOld init [.upload 1 [97] "01" false false, .get 7 [97, 46, 99, 115, 118], .list 7, .delete 7 [97, 46, 99, 115, 118], .get 1 [97, 46, 99, 115, 118]]).2 =
+    [.stored [97, 46, 99, 115, 118], .content "01", .names [[97, 46, 99, 115, 118]], .res .ok, .res .notFound] := by decide
+
+example : -- non-vacuous: suffix rule, conflict without overwrite, case variants are different files, orgs apart
+    (run init [.upload 0 [97] "01" false false, .upload 0 [97, 46, 99, 115, 118] "02" false false, .upload 0 [97] "03" true false,
+      .get 0 [97], .get 0 [97, 46, 99, 115, 118], .upload 0 [65, 46, 67, 83, 86] "04" false true, .list 0, .delete 0 [97, 46, 99, 115, 118],
+      .restart, .list 0, .upload 0 [46, 46] "05" true false,
+      .upload 7 [97] "06" false false, .get 0 [97, 46, 99, 115, 118], .get 7 [97, 46, 99, 115, 118], .list 1, .delete 1 [97, 46, 99, 115, 118], .list 7, .get 0 [55]]).2 =
     [.stored [97, 46, 99, 115, 118], .res .exists_, .stored [97, 46, 99, 115, 118], .res .notFound, .content "03",
       .stored [65, 46, 67, 83, 86], .names [[97, 46, 99, 115, 118], [65, 46, 67, 83, 86]], .res .ok, .restarted,
-      .names [[65, 46, 67, 83, 86]], .res .invalid] := by decide
+      .names [[65, 46, 67, 83, 86]], .res .invalid,
+      .stored [97, 46, 99, 115, 118], .res .notFound, .content "06", .names [], .res .notFound, .names [[97, 46, 99, 115, 118]], .res .notFound] := by decide
 end Lookup
 
 /-! ## contact points (pkg/alerts/alertsHandler + alertsqlite) — with patches c20-6 / c20-7 / c20-8 (sqlite
@@ -1159,7 +1194,7 @@ theorem get_alert_own_org (st : St) (t id id' : Nat) (r : Row) (h : (step st (.g
     r.org = t := by
   simp only [step] at h
   split at h
-  · split at h <;> cases h
+  · cases h
   · rename_i r0 _
     by_cases ho : r0.org = t
     · simp only [ne_eq, ho, not_true_eq_false, if_false] at h
@@ -1175,6 +1210,27 @@ theorem get_alert_own_org_old_counterexample :
     { name := [97], org := 0, msg := "m", cid := 1, cname := [99] } (by decide)
   revert h1; decide
 
+/-- WITH patch c20-22: a get or an update request that names an id no alert has is refused "does not exist", whatever
+org asks — in ANY state; nothing is changed. -/
+theorem unknown_alert_id_refused (st : St) (t id : Nat) (h : st.alerts.get id = none) :
+    step st (.get t id) = (st, .res .notFound) ∧
+    ∀ name msg cid, step st (.update t id name msg cid) = (st, .res .notFound) := by
+  simp [step, h]
+
+/-- OLD behaviour (before patch c20-22) REFUTED: org 0 asking for an id that no alert has was answered with an EMPTY
+alert (status 200), and its update request with "alert id not valid". -/
+theorem unknown_alert_id_refused_old_counterexample :
+    ¬ (∀ (st : St) (t id : Nat), st.alerts.get id = none → (stepUnknownIdOld st (.get t id)).2 = .res .notFound) ∧
+    ¬ (∀ (st : St) (t id : Nat), st.alerts.get id = none →
+        (stepUnknownIdOld st (.update t id [120] "m" none)).2 = .res .notFound) := by
+  constructor
+  · intro h
+    have h1 := h init 0 9 rfl
+    revert h1; decide
+  · intro h
+    have h1 := h init 0 9 rfl
+    revert h1; decide
+
 /-- OLD behaviour (before patch c20-16) REFUTED: the create request stored the alert for the org its BODY named —
 a request of org 1 naming org 2 produced an alert that org 2 lists. -/
 theorem create_alert_body_org_old_counterexample :
@@ -1189,8 +1245,8 @@ example : -- non-vacuous run: duplicate name, missing contact, invalid names, un
     (run init [.contact 0 [99], .contact 1 [100], .create 0 [97] "m1" 1, .create 1 [97] "m2" 1, .create 0 [98] "m3" 5,
       .create 0 [] "m" 1, .create 0 [42] "m" 1, .get 0 9, .update 0 9 [120] "m" none, .get 1 9, .get 1 1, .update 1 1 [121] "x" none,
       .delete 1 1, .update 0 1 [120] "m4" (some 2), .restart, .list 0, .delete 0 1, .delete 0 1]).2 =
-    [.created 1, .created 2, .created 1, .res .exists_, .res .parentNotFound, .res .invalid, .res .invalid, .noAlert,
-      .res .invalid, .res .notFound, .res .notFound, .res .notFound, .res .notFound, .res .ok, .restarted,
+    [.created 1, .created 2, .created 1, .res .exists_, .res .parentNotFound, .res .invalid, .res .invalid, .res .notFound,
+      .res .notFound, .res .notFound, .res .notFound, .res .notFound, .res .notFound, .res .ok, .restarted,
       .rows [(1, { name := [120], org := 0, msg := "m4", cid := 2, cname := [100] })], .res .ok, .res .notFound] := by
   decide
 end AlertDB
